@@ -10,7 +10,7 @@ from gevent.event import AsyncResult
 from hypothesis import strategies as st
 
 from vf import hyp
-from vf.peers import StagePeer, StubClientContext, CONNECTION_FAULTS
+from vf.peers import kill_relay, StagePeer, StubClientContext, CONNECTION_FAULTS
 from vf.transport import WouldBlockForever
 
 from slimta.envelope import Envelope
@@ -213,7 +213,7 @@ def run_smtp_case(case):
             if out:
                 break
     finally:
-        relay.kill()
+        kill_relay(relay)
         gevent.idle()
     return out, nt
 
